@@ -1632,4 +1632,131 @@ class C13(Oracle):
         return out
 
 
-ORACLES = {'C18': C18, 'C08': C08, 'C09': C09, 'C10': C10, 'C11': C11, 'C12': C12, 'C05': C05, 'C06': C06, 'C07': C07, 'C04': C04, 'C20': C20, 'C15': C15, 'C16': C16, 'C13': C13}
+
+class C01(Oracle):
+    prop = 'C01'
+
+    def gen(self, rng):
+        from harness import corr_env
+
+        ge = gen_env_cases(rng, p_random=0.5)
+        while True:
+            # (a) arbitrary conforming states pushed through functional_step of a random composition
+            data = corr_env.random_config(rng)
+            h, w = data['reset_function']['shape']
+            s = gen.valid_random_state(rng, max_h=h, max_w=w, min_h=h, min_w=w, p_floor=0.5) if rng.random() < 0.6 else gen.random_state(rng, max_h=h, max_w=w, min_h=h, min_w=w, p_floor=0.5)
+            # unique exit / a beacon so that the distance / memory rewards' preconditions hold
+            yield {'kind': 'fstep', 'config': data, 'state': enc_state(s), 'seed': rng.randrange(2**31)}
+            # (b) reachable states of shipped / random environments
+            c = next(ge)
+            c['kind'] = 'traj'
+            c['actions'] = c['actions'][:20]
+            yield c
+
+    def from_line(self, line):
+        return None
+
+    def _prep_state(self, env, data, s):
+        """make the documented preconditions of the configured rewards true"""
+        from gym_gridverse.grid_object import Beacon, Color, Exit, Floor
+
+        names = {r['name'] for r in data['reward_functions']}
+        g = s.grid
+        if names & {'getting_closer', 'getting_closer_shortest_path', 'proportional_to_distance'}:
+            ps = [p for p in g.area.positions() if isinstance(g[p], Exit)]
+            for p in ps[1:]:
+                g[p] = Floor()
+            if not ps:
+                g[0, 0] = Exit()
+        if 'reach_exit_memory' in names and not any(isinstance(g[p], Beacon) for p in g.area.positions()):
+            g[g.shape.height - 1, g.shape.width - 1] = Beacon(Color.RED)
+        return s
+
+    def check(self, c):
+        import numpy as np
+        from gym_gridverse.action import Action
+        from gym_gridverse.grid_object import Exit, Floor
+
+        out = []
+        if c['kind'] == 'traj':
+            env = env_of_case(c)
+            env.set_seed(c['seed'])
+            try:
+                env.reset()
+                for ai in c['actions']:
+                    if not env.state_space.contains(env.state):
+                        out.append(V('trajectory/state-outside-space', f'{c.get("file")}'))
+                    if not env.observation_space.contains(env.observation):
+                        out.append(V('trajectory/observation-outside-space', f'{c.get("file")}'))
+                    r, d = env.step(env.action_space.actions[ai])
+                    if not isinstance(r, (int, float)) or not math.isfinite(r) or type(d) is not bool:
+                        out.append(V('trajectory/reward-or-flag-type', f'{c.get("file")} {r!r} {d!r}'))
+                    if c.get('file') and not isinstance(r, float):
+                        out.append(V('trajectory/reward-not-float', f'{c.get("file")} {r!r}'))
+                    if d:
+                        env.reset()
+            except Exception as e:
+                out.append(V('trajectory/raises', f'{type(e).__name__}: {e} {c.get("file", "random composition")} seed={c["seed"]}'))
+            return out
+        data = c['config']
+        env = build_env(None, data)
+        s = self._prep_state(env, data, state_from_str(c['state']))
+        env.set_seed(c['seed'])
+        if not env.state_space.contains(s):
+            return out
+        tnames = [t['name'] for t in data['transition_functions']]
+        snap = enc_state(s)
+        needs_unique = {r['name'] for r in data['reward_functions']} & {'getting_closer', 'getting_closer_shortest_path', 'proportional_to_distance'}
+        for a in Action:
+            inside = env.action_space.contains(a)
+            if inside and needs_unique:
+                # the distance rewards' documented precondition must also hold in the next state
+                from gym_gridverse.envs.transition_functions import transition_with_copy
+
+                env.set_seed(c['seed'])
+                try:
+                    nxt = transition_with_copy(env._transition_function, s, a, rng=env._rng)
+                    if sum(isinstance(nxt.grid[p], Exit) for p in nxt.grid.area.positions()) != 1:
+                        continue
+                except Exception:
+                    pass
+            env.set_seed(c['seed'])
+            try:
+                s2, r, d = env.functional_step(s, a)
+            except ValueError as e:
+                if inside:
+                    sig = 'functional_step/raises'
+                    front = s.agent.front()
+                    if 'teleport' in tnames and 'positive integer' in str(e):
+                        sig = 'teleport/unpaired-telepod-raises'
+                    out.append(V(sig, f'ValueError: {e} state={c["state"]} a={a} trans={tnames}'))
+                continue
+            except Exception as e:
+                front = s.agent.front()
+                sig = 'functional_step/raises'
+                if isinstance(e, IndexError) and not in_grid(s.grid, front):
+                    sig = 'pickndrop/front-outside-grid' if a.name == 'PICK_N_DROP' else ('reward-actuate_door/front-outside-grid' if a.name == 'ACTUATE' else sig)
+                out.append(V(sig, f'{type(e).__name__}: {e} state={c["state"]} a={a} trans={tnames}'))
+                continue
+            if not inside:
+                out.append(V('functional_step/bad-action-accepted', f'{a}'))
+                continue
+            if enc_state(s) != snap:
+                out.append(V('functional_step/mutates-input', f'{c["state"]} a={a}'))
+            if not env.state_space.contains(s2):
+                sig = 'functional_step/next-state-outside-space'
+                if not in_grid(s2.grid, s2.agent.position):
+                    sig = 'move_agent/target-outside-grid-wraps'
+                out.append(V(sig, f'state={c["state"]} a={a} trans={tnames} -> {enc_state(s2)}'))
+            if not isinstance(r, (int, float)) or not math.isfinite(r) or type(d) is not bool:
+                out.append(V('functional_step/reward-or-flag-type', f'{r!r} {d!r}'))
+            try:
+                o = env.functional_observation(s2) if env.state_space.contains(s2) else None
+                if o is not None and not env.observation_space.contains(o):
+                    out.append(V('functional_observation/outside-space', f'{enc_state(s2)}'))
+            except Exception as e:
+                out.append(V('functional_observation/raises', f'{type(e).__name__}: {e}'))
+        return out
+
+
+ORACLES = {'C18': C18, 'C08': C08, 'C09': C09, 'C10': C10, 'C11': C11, 'C12': C12, 'C05': C05, 'C06': C06, 'C07': C07, 'C04': C04, 'C20': C20, 'C15': C15, 'C16': C16, 'C13': C13, 'C01': C01}
